@@ -392,6 +392,89 @@ func %s() {
 `, pc.name, name, pc.call, pc.name != "ExecuteRulesWithSpecifiedEM")
 		fam.Instances = append(fam.Instances, Instance{Func: name, Stratum: "L3L4", Desc: pc.name + ": clean-up and fresh result", Expect: []string{"executed"}})
 	}
+	// L2 is an invariant of the management operations too
+	for _, op := range []struct{ id, code string }{
+		{"remove", "zzMust(gp.RemoveRules([]string{\"b\"}), \"removal\")"},
+		{"remove_absent", "_ = gp.RemoveRules([]string{\"zz\"})"},
+		{"full", "zzMust(gp.UpdatePooledRules(zzReqText), \"full update\")"},
+		{"incremental", "zzMust(gp.UpdatePooledRulesIncremental(\"rule \\\"c\\\" salience 1 begin\\n x = 1\\nend\\n\"), \"incremental update\")"},
+		{"clear_full", "gp.ClearPoolRules()\n\t\tzzMust(gp.UpdatePooledRules(zzReqText), \"full update\")"},
+		{"clear_incremental", "gp.ClearPoolRules()\n\t\tzzMust(gp.UpdatePooledRulesIncremental(zzReqText), \"incremental update\")"},
+		{"setmodel", "zzMust(gp.SetExecModel(ConcurrentModel), \"model change\")"},
+	} {
+		name := "L2_after_" + op.id
+		fmt.Fprintf(&b, `
+// L2 after %s; then two overlapping requests read only their own data
+func %s() {
+	for _, sz := range [][2]int64{{1, 2}, {2, 3}} {
+		gp := zzReqPool(sz[0], sz[1])
+		%s
+		n := int(sz[1])
+		for i := 0; i < n; i++ {
+			key := "only" + strconv.Itoa(i)
+			gp.rbSlice[i].Dc.Add(key, int64(i))
+			for j := 0; j < n; j++ {
+				_, e := gp.rbSlice[j].Dc.Get(key)
+				vnd.Assert((e == nil) == (i == j), "data injected into one instance's context is invisible in every other")
+			}
+			vnd.Assert(gp.rbSlice[i].Dc != gp.ruleBuilder.Dc, "instances do not share the master's context")
+			gp.rbSlice[i].Dc.Del(key)
+		}
+		// a request held on one instance, a complete one on another
+		r1, r2 := vnd.Int64("r1"), vnd.Int64("r2")
+		held, e := gp.prepareWithMultiInput(map[string]interface{}{"req": r1, "resp": int64(1), "fail": false, "quiet": false})
+		zzMust(e, "first request")
+		_, res2 := gp.ExecuteSelectedRules(map[string]interface{}{"req": r2, "resp": int64(2), "fail": false, "quiet": false}, []string{"a"})
+		vnd.Quiesce()
+		x2, ok2 := res2["a"].(int64)
+		vnd.Assert(ok2 && x2 == r2, "the overlapping request reads only its own data")
+		v, e1 := held.rulebuilder.Dc.Get("req")
+		vnd.Assert(e1 == nil, "a request overlapped by another one still finds its own data")
+		if e1 == nil {
+			x1, ok1 := v.Interface().(int64)
+			vnd.Assert(ok1 && x1 == r1, "a request overlapped by another one still reads only its own data")
+		}
+		held.clearInjected("req", "resp", "fail", "quiet")
+		gp.putGengineLocked(held)
+	}
+	vnd.Reach("executed")
+}
+`, op.id, name, op.code)
+		fam.Instances = append(fam.Instances, Instance{Func: name, Stratum: "L2", Desc: "pairwise distinct data contexts after " + op.id, Expect: []string{"executed"}})
+	}
+	// L3 for partial injections through the request/response entry point
+	for k, args := range []string{`"", nil, "resp", int64(7)`, `"req", nil, "resp", int64(7)`, `"", int64(3), "resp", int64(7)`, `"req", req, "", nil`, `"req", req, "resp", nil`, `"req", req, "", int64(7)`, `"", nil, "", nil`} {
+		name := fmt.Sprintf("L3_partial_%d", k)
+		fmt.Fprintf(&b, `
+// ExecuteRulesWithSpecifiedEM(%s): whatever was injected is gone afterwards, on every instance
+func %s() {
+	gp := zzReqPool(1, 2)
+	req := vnd.Int64("req")
+	_ = req
+	for which := 0; which < 2; which++ {
+		var held *gengineWrapper
+		if which == 1 {
+			held, _ = gp.getGengine()
+		}
+		_, _ = gp.ExecuteRulesWithSpecifiedEM(%s)
+		if held != nil {
+			gp.putGengineLocked(held)
+		}
+		vnd.Quiesce()
+		for i := range gp.rbSlice {
+			for _, k := range []string{"req", "resp"} {
+				_, e := gp.rbSlice[i].Dc.Get(k)
+				vnd.Assert(e != nil, "once the call has returned its data is no longer visible on any instance")
+			}
+			_, e := gp.rbSlice[i].Dc.Get("ev")
+			vnd.Assert(e == nil, "the pool's apis stay injected")
+		}
+	}
+	vnd.Reach("executed")
+}
+`, strings.ReplaceAll(args, `"`, `'`), name, args)
+		fam.Instances = append(fam.Instances, Instance{Func: name, Stratum: "L3", Desc: "clean-up after ExecuteRulesWithSpecifiedEM(" + args + ")", Expect: []string{"executed"}})
+	}
 	b.WriteString(`
 // a local assigned on one path of an earlier request is not there for a later request on the other path
 func L5_local_does_not_leak() {
